@@ -17,7 +17,7 @@ from ..effects import Effects
 from ..facts import Broken, callee_name
 from ..lineexpr import walk
 from ..mirq import expr, show
-from ..region import Region
+from ..region import GateBypassed, Region
 from ..report import Finding
 
 LEVEL = "other"
@@ -27,6 +27,25 @@ DECORATION_ONLY = {"deref", "from_utf8_lossy", "trim", "trim_end", "trim_start",
 
 
 def run(facts, rep, tier):
+    try:
+        return _run(facts, rep, tier)
+    except GateBypassed as e:
+        _bypassed(facts, rep, e)
+
+
+def _bypassed(facts, rep, e):
+    """the reader thread never calls the analysed gate: what the proofs about get_message establish does not apply to it"""
+    from ..cfg import call_graph, reachable_bodies
+    roots = [b.name for b in facts.bodies.values() if b.kind == 'closure' and b.parent and b.parent.endswith('spawn_reader_thread')]
+    reach = reachable_bodies(facts, roots, call_graph(facts)) if roots else set()
+    parts = sorted(n.split('::')[-1] for n in reach if n.split('::')[-1] in ('clean_squitter', 'parity_ok', 'length_matches_format', 'get_frame', 'get_crc'))
+    rep.rule('R02.4', 'effects dominated by the accept gates', 'P')
+    rep.oblige(False, ('gate-bypassed',))
+    rep.add(Finding('R02.4', 'the reader does not accept lines through get_message', 'a line is taken as a frame by code other than get_message: the reader thread calls %s itself; the accept decision proven for get_message (digits, length, DF/length agreement, parity) is not the one that guards the table' % (parts or 'no part of the gate'), None))
+    rep.instances('R02.4', 1, floor=1)
+
+
+def _run(facts, rep, tier):
     rep.explanation = (
         "E2 abstract interpretation of the public gate get_message on an abstract line = (sequence of symbolic hex digits, "
         "arbitrary non-hex decoration): for every digit count 0..64 and every DF x length combination the abstract result "
